@@ -470,6 +470,26 @@ fn check_c01() {
             }
         }
     }
+    // LARGE symbols built through the API: one (0,1)-orbit of length n/2 for n = 512, 600, 1024 chambers (orbit lengths beyond 255), and
+    // dimensions 256, 300 and 1000 on one chamber: the printed text must parse back to an equal symbol
+    for n in [512usize, 600, 1024] {
+        let r = quiet(|| { let mut ds = PartialDSet::new(n, 1);
+            for k in 0..n / 2 { ds.set(0, 2 * k + 1, 2 * k + 2); ds.set(1, 2 * k + 2, if 2 * k + 3 > n { 1 } else { 2 * k + 3 }); }
+            let mut sym: PartialDSym = ds.into(); sym.set_v(0, 1, 1); sym });
+        match r { Err(e) => falsified("PartialDSym (large orbit)", format!("one (0,1)-orbit on {} chambers", n), format!("panic {}", e)),
+            Ok(sym) => { let t = format!("{}", sym);
+                match quiet(|| t.parse::<PartialDSym>()) { Ok(Ok(back)) => if back != sym { falsified("Display/from_str round trip", format!("one (0,1)-orbit on {} chambers", n), "parses to a different symbol".into()); },
+                    Ok(Err(e)) => falsified("Display/from_str round trip", format!("one (0,1)-orbit on {} chambers", n), format!("does not parse: {}", e.lines().next().unwrap_or(""))),
+                    Err(e) => falsified("PartialDSym::from_str", format!("the text of one (0,1)-orbit on {} chambers", n), format!("panic {}", e)) } } }
+    }
+    for dim in [256usize, 300, 1000] {
+        let r = quiet(|| { let mut ds = PartialDSet::new(1, dim); for i in 0..=dim { ds.set(i, 1, 1); } let mut sym: PartialDSym = ds.into(); for i in 0..dim { sym.set_v(i, 1, 3); } sym });
+        match r { Err(e) => falsified("PartialDSym (large dimension)", format!("one chamber, dimension {}", dim), format!("panic {}", e)),
+            Ok(sym) => { let t = format!("{}", sym);
+                match quiet(|| t.parse::<PartialDSym>()) { Ok(Ok(back)) => if back != sym { falsified("Display/from_str round trip", format!("one chamber, dimension {}", dim), "parses to a different symbol".into()); },
+                    Ok(Err(e)) => falsified("Display/from_str round trip", format!("one chamber, dimension {}", dim), format!("does not parse: {}", e.lines().next().unwrap_or(""))),
+                    Err(e) => falsified("PartialDSym::from_str", format!("the text of one chamber, dimension {}", dim), format!("panic {}", e)) } } }
+    }
     let mut rng = Rng(5);
     let base: Vec<String> = inputs.clone();
     for b in &base { for _ in 0..6 {   // single-character edits of valid text
